@@ -3,7 +3,7 @@
 From Coq Require Import String.
 From Coq Require Import List NArith ZArith Bool Arith Lia Permutation.
 From Coq Require Import Init.Byte.
-From FFS Require Import Base.Res Base.Bytes Rpc.Json Rpc.Model Rpc.Spec Rpc.ProofsBatch Rpc.Proofs.
+From FFS Require Import Base.Res Base.Bytes Rlp.Spec Tx.Spec Rpc.Json Rpc.Model Rpc.Spec Rpc.ProofsBatch Rpc.Proofs.
 Import ListNotations.
 Local Open Scope string_scope.
 Local Open Scope list_scope.
@@ -188,3 +188,47 @@ Section E2E.
     do 2 eexists. split; [reflexivity|]. cbn [response_opt_tree]. rewrite response_tree_id, I. reflexivity.
   Qed.
 End E2E.
+
+Section E2ESend.
+  Variable parse_int : bytes -> option Z.
+  Variable lex : bytes -> option json.
+  Variable accounts : list bytes.
+  Variable sign_with : bytes -> transaction -> Z -> res bytes.
+  Variable backend : frame -> backend_reply.
+  Variable chain : Z.
+  Variable H : bytes -> bytes.
+  Variable ecrecover : bytes -> N -> N -> N -> option bytes.
+
+  (* C09_send_tx from the bytes on the wire to the frames at the backend and the reply tree *)
+  Theorem send_tx_end_to_end body order ver id p0 rest tx f a :
+    wallet_sound H ecrecover accounts sign_with chain ->
+    (forall a t c, sign_with a t c <> Panic) ->
+    (b2n (sniffFirstByte body) =? 91)%N = false ->
+    lex body = Some (request_tree ver id (bs "eth_sendTransaction") (p0 :: rest)) -> id <> JNull ->
+    decode_transaction parse_int p0 = Ok tx -> tx_from tx = Some f -> dec_address f = Ok a ->
+    exists status tree frames,
+      rpcHandler parse_int lex accounts sign_with backend chain body order = Ok (status, tree, [frames]) /\
+      tree_member (bs "id") tree = Some id /\
+      let pre := match tx_nonce tx with Some _ => [] | None => [count_frame a] end in
+      ((exists nonce raw,
+          frames = pre ++ [raw_frame raw] /\
+          nonce_source parse_int backend tx a nonce pre /\
+          In a accounts /\
+          raw_recovers_to H ecrecover raw (Z.to_N chain) a (requested_format tx)
+                          (requested_fields (set_nonce tx nonce)))
+       \/ (frames = pre /\ status = 500%N /\ tree_member (bs "result") tree = None)).
+  Proof.
+    intros W Hnp Hs Hl Hid Hd Hf Ha.
+    assert (Hi : dec_anyptr id = Some id) by (destruct id; try reflexivity; congruence).
+    set (rq := mkReq ver (dec_anyptr id) (bs "eth_sendTransaction") (p0 :: rest)).
+    destruct (send_tx parse_int accounts sign_with backend chain H ecrecover W rq id p0 rest tx f a Hnp Hi eq_refl eq_refl Hd Hf Ha)
+      as (resp & err & frames & E & I & C).
+    rewrite (handler_single parse_int lex accounts sign_with backend chain body order _ rq (Some resp) err frames Hs Hl
+               (decode_request_tree ver id _ _) E).
+    do 3 eexists. split; [reflexivity|]. split.
+    - cbn [response_opt_tree]. rewrite response_tree_id, I. reflexivity.
+    - cbv zeta in *. destruct C as [(nonce & raw & Hfr & Hns & Hin & Hrec & _)|(Hfr & He & [code ->])].
+      + left. exists nonce, raw. auto.
+      + right. subst err. split; [exact Hfr|]. split; reflexivity.
+  Qed.
+End E2ESend.
